@@ -15,7 +15,8 @@ data_file = $out/data
 parallel = True
 RC
 for c in $(ls manifest.d | sed 's/\.json$//'); do
-  VERIF_JOBS=1 COVERAGE_RCFILE="$out/rc" timeout 3000 /venv/bin/python -m coverage run --rcfile="$out/rc" -m harness.cover_main "$c" --tier quick --count "$count" > "$out/$c.log" 2>&1
+  n="--count $count"; [ "$c" = C01 ] && n="--count 8"   # C01's scenarios are whole example runs in subprocesses
+  VERIF_JOBS=1 COVERAGE_RCFILE="$out/rc" timeout 3000 /venv/bin/python -m coverage run --rcfile="$out/rc" -m harness.cover_main "$c" --tier quick $n > "$out/$c.log" 2>&1
   echo "$c exit $? $(tail -n 1 "$out/$c.log" | cut -c1-120)"
 done
 cd "$out" && /venv/bin/python -m coverage combine --rcfile="$out/rc" >/dev/null 2>&1
